@@ -104,7 +104,7 @@ def make_config(rng, ns, spec):
         for k in rng.sample(keys, 2):
             conf["node"]["default"][k] = rng.choice(vals[k])
     kinds = sorted(set(c["kind"] for c in spec["comps"]))
-    for kd in rng.sample(kinds, min(len(kinds), rng.randint(0, 3))):
+    for kd in (kinds if rng.random() < 0.5 else rng.sample(kinds, min(len(kinds), rng.randint(0, 3)))):
         conf["node"][kd] = {k: rng.choice(vals[k]) for k in rng.sample(keys, rng.randint(1, 3))}
     for c in rng.sample(spec["comps"], min(len(spec["comps"]), rng.randint(0, 3))):
         conf["node"][c["name"]] = {k: rng.choice(vals[k]) for k in rng.sample(keys, rng.randint(1, 3))}
